@@ -170,7 +170,14 @@ func extractLayout(fn *ssa.Function, sym func(v ssa.Value) string) (rows []layou
 			for k := range b.Succs {
 				c := edgeCond(b, k)
 				if c != nil && c.Op == token.LSS && c.Pos {
-					if _, ok := strip(c.X).(*ssa.Phi); ok {
+					x := strip(c.X)
+					if bo, ok := x.(*ssa.BinOp); ok && bo.Op == token.ADD {
+						// range loops: the index starts at -1 and is incremented before the comparison
+						if k, ok := constInt(bo.Y); ok && k == 1 {
+							x = strip(bo.X)
+						}
+					}
+					if _, ok := x.(*ssa.Phi); ok {
 						if n, ok := constInt(c.Y); ok {
 							loopN[f] = n
 						}
@@ -385,6 +392,25 @@ func isDecodedValueSize(v ssa.Value) bool {
 	case *ssa.BinOp:
 		if x.Op == token.AND_NOT || x.Op == token.AND {
 			return isDecodedValueSize(x.X)
+		}
+	case *ssa.UnOp:
+		// a field of a local struct that holds the decoded value size
+		if x.Op == token.MUL {
+			if fa, ok := x.X.(*ssa.FieldAddr); ok {
+				if a, ok := fa.X.(*ssa.Alloc); ok {
+					if refs := a.Referrers(); refs != nil {
+						for _, rf := range *refs {
+							if fb, ok := rf.(*ssa.FieldAddr); ok && fb.Field == fa.Field {
+								for _, sv := range allocStores(fb) {
+									if _, isLoad := strip(sv).(*ssa.UnOp); !isLoad && isDecodedValueSize(sv) {
+										return true
+									}
+								}
+							}
+						}
+					}
+				}
+			}
 		}
 	}
 	return false
